@@ -186,6 +186,10 @@ impl AsCborValue for CoseKey {
             map.push((BASE_IV.to_cbor_value()?, Value::Bytes(self.base_iv)));
         }
         let mut seen = BTreeSet::new();
+        // The labels already emitted for the typed fields count as seen too.
+        for (label, _value) in map.iter() {
+            seen.insert(Label::from_cbor_value(label.clone())?);
+        }
         for (label, value) in self.params {
             if seen.contains(&label) {
                 return Err(CoseError::DuplicateMapKey);
